@@ -16,9 +16,13 @@ ENFORCING = S.ZL + ["DensitySplit", "SRS_strict", "Periodic"]
 
 
 def adversarial(rng, n, p):
-    style = str(rng.choice(["ones", "ones", "alternate", "nan_then_ones", "uniform", "hug"]))
+    style = str(rng.choice(["ones", "ones", "alternate", "nan_then_ones", "nan_mixed", "uniform", "hug"]))
     if style == "ones":
         return np.ones(n), style
+    if style == "nan_mixed":          # NaN and maximal utilities interleaved at random (what a density filter hands to its manager)
+        u = np.ones(n)
+        u[rng.random(n) < 0.5] = np.nan
+        return u, style
     if style == "alternate":
         return np.tile([1.0, 0.0], n)[:n], style
     if style == "nan_then_ones":
@@ -152,13 +156,17 @@ def bound_search(ctx, kinds, nl, nrange, tag, escalate=False):
             p = S.gen_params(rng, kind)
             n = int(rng.integers(*nrange))
             utils, style = adversarial(rng, n, p)
-            chunk = int(rng.choice([1, 3, 10, 50, 100]))
+            chunk = int(rng.choice([1, 3, 10, 50, 100, 500, n]))
             if escalate:
                 p["w"] = int(rng.choice([10, 100]))
                 p["budget"] = float(rng.choice([0.1, 0.3]))
-                chunk = int(rng.choice([10, 50, 100, 200]))
-                if h % 2 == 0:
+                chunk = int(rng.choice([10, 50, 100, 200, 500, n]))
+                if "v" in p:
+                    p["v"] = float(rng.choice([0.1, 0.5, 0.9]))
+                if h % 3 == 0:
                     utils, style = np.ones(n), "ones"
+                elif h % 3 == 1:
+                    utils, style = np.where(rng.random(n) < 0.5, np.nan, 1.0), "nan_mixed"
             m = S.make(p)
             granted, pos, worst = 0, 0, None
             refused = False
